@@ -50,3 +50,32 @@ Fixpoint send_packets (advances : bool) (oracle : list sockresp) (packets : list
   end.
 Definition send_block (advances : bool) (psize : nat) (oracle : list sockresp) (data : list N) : list N * option bool :=
   send_packets advances oracle (chunks (S (length data)) (Nat.max psize 1) data) [].
+
+(* ---- the connection may be replaced while a message is on its way (D79) ----
+   Between two send() calls the connection can end and the next one be established (RReplaced).  With `one_socket` the loop keeps offering the
+   message to the socket it started on - which is closed then: the next call fails; without it the loop looks the socket up again and goes on
+   writing to the new connection.  Result: what the first and what the second connection have taken, and the reported outcome. *)
+Inductive sockresp2 := R2 (r : sockresp) | RReplaced.
+
+Fixpoint send_loop2 (one_socket : bool) (oracle : list sockresp2) (data : list N) (replaced : bool) (a b : list N) : list N * list N * option bool :=
+  match oracle with
+  | [] => match data with [] => (a, b, Some true) | _ => (a, b, None) end
+  | r :: rest =>
+    match data with
+    | [] => (a, b, Some true)
+    | _ =>
+      match r with
+      | RReplaced => send_loop2 one_socket rest data true a b
+      | R2 r =>
+        if replaced && one_socket then (a, b, Some false)            (* select / send on the closed socket raises: a failed send *)
+        else match r with
+             | RTake n => let k := Nat.min (Nat.max n 1) (length data) in
+                          if replaced then send_loop2 one_socket rest (skipn k data) replaced a (b ++ firstn k data)
+                          else send_loop2 one_socket rest (skipn k data) replaced (a ++ firstn k data) b
+             | RWouldBlock => send_loop2 one_socket rest data replaced a b
+             | RError => (a, b, Some false)
+             end
+      end
+    end
+  end.
+Definition send_data2 (one_socket : bool) (oracle : list sockresp2) (data : list N) := send_loop2 one_socket oracle data false [] [].
